@@ -25,7 +25,8 @@ class CheckC02(core.Check):
     level = "exploration"
     cfg = "A"
     rule = (
-        "case = one honest snow<->snow session with library-generated static keys and OS-random ephemerals; "
+        "case = one honest snow<->snow session with library-generated static keys and OS-random ephemerals (PSKs partly installed late, a quarter "
+        "of the sessions with refused caller slips - wrong turn, unusable buffer - before the right call); "
         "oracle = agreement (finish after exactly N messages, no Err, payload equality, equal handshake hashes); "
         "distinct key = (protocol name, payload-length classes, transport plan, mode, resolver pair); non-trivial = session "
         "ran to the end of its transport plan with every delivery compared"
@@ -87,6 +88,7 @@ class CheckC02(core.Check):
             c.op("set_rs", "B", key="$pubA")
         c.meta["build"] = (c.op("build", "A"), c.op("build", "B"))
         maxp = sessions.max_payloads(parsed)
+        maxp0 = list(maxp)
         if hfs:
             maxp = [m - 3300 for m in maxp]  # room for the KEM public key / ciphertext and their tags
         big = rnd.random() < 0.1
@@ -94,6 +96,7 @@ class CheckC02(core.Check):
         if rnd.random() < 0.2:
             pays = [0] * len(pays)
         hs = []
+        clumsy = rnd.random() < 0.25 and not hfs
         for i in range(parsed.nmsgs):
             w, r = ("A", "B") if i % 2 == 0 else ("B", "A")
             for pid in (w, r):
@@ -101,6 +104,16 @@ class CheckC02(core.Check):
                     if (n == 0 and i == 0) or (n > 0 and n - 1 == i):
                         if pid == w or True:
                             c.meta.setdefault("setpsk", []).append(c.op("set_psk", pid, loc=n, key=psks[n]))
+            if clumsy and rnd.random() < 0.5:
+                # a caller's slip that the library refuses (wrong turn, a buffer that cannot hold the message): the messages
+                # exchanged are still unmodified, the session must complete all the same
+                slip = rnd.choice(["wturn", "rturn", "buf"])
+                if slip == "wturn":
+                    c.meta.setdefault("slips", []).append(c.op("hs_write", r, pay="gen:3:slip", buf=sessions.BIGBUF))
+                elif slip == "rturn":
+                    c.meta.setdefault("slips", []).append(c.op("hs_read", w, msg="gen:%d:slipm%d" % (rnd.choice([0, 48, 96]), i), buf=sessions.BIGBUF))
+                else:
+                    c.meta.setdefault("slips", []).append(c.op("hs_write", w, pay="gen:%d:hp%d.%d" % (pays[i], seed, i), buf=rnd.choice([0, (65535 - maxp0[i]) + pays[i] - 1])))
             lw = c.op("hs_write", w, pay="gen:%d:hp%d.%d" % (pays[i], seed, i), buf=sessions.BIGBUF, out="m%d" % i)
             # payload buffers of every legal size: exact, a few spare bytes, message length, large
             lr = c.op("hs_read", r, msg="$m%d" % i, buf=rnd.choice([sessions.BIGBUF, pays[i], pays[i] + rnd.randrange(1, 16), pays[i] + 16]))
@@ -152,6 +165,12 @@ class CheckC02(core.Check):
             if e is None or not e.ok:
                 bad("build of an honest party failed", e, "build")
                 return r
+        for lab in case.meta.get("slips", []):
+            e = by.get(str(lab))
+            if e is None or e.panic or e.ok:
+                r.foreign_dev("C11/C14", "a call that must be refused was not: %s" % (e.res[:60] if e else "missing"))
+                return r
+            r.stats["refused_slips_in_honest_sessions"] += 1
         for i, (lw, lr, pseed, plen) in enumerate(case.meta["hs"]):
             ew, er = by.get(str(lw)), by.get(str(lr))
             if ew is None or not ew.ok:
